@@ -10,7 +10,7 @@ Definition vs_two62 : Z := 4611686018427387904.
    remainder; a period before the last transfer is an error. *)
 Record vs_share_spec (bound : Z) (share : vs_share_fn) : Prop := {
   ss_end : forall l p f, 0 <= l < bound -> share l p f true = Some l;
-  ss_mid : forall l p f, 0 <= l < bound -> 0 <= p <= f -> 1 <= f <= vs_two63 ->
+  ss_mid : forall l p f, 0 <= l < bound -> 0 <= p < f -> 1 <= f <= vs_two63 ->
            exists a, share l p f false = Some a /\ 0 <= a <= l;
   ss_neg : forall l p f, 0 <= l < bound -> - vs_two63 <= p < 0 -> 0 <= f <= vs_two63 ->
            share l p f false = None }.
@@ -710,16 +710,15 @@ End Schedule.
 
 (* ---------- instances ---------- *)
 
-(* the share computed in integers (what the repaired contract would compute) *)
-Definition vs_share_exact : vs_share_fn := fun l p f ending =>
-  if ending then Some l else if (p <? 0) || (f <=? 0) then None else Some (l * p / f).
+(* the share computed in integers: what destination.unlock computes *)
+Notation vs_share_exact := vs_share_int.
 
 Lemma vs_share_exact_spec : vs_share_spec vs_two64 vs_share_exact.
 Proof.
-  split; unfold vs_share_exact.
+  split; unfold vs_share_int.
   - reflexivity.
   - intros l p f Hl Hp Hf. destruct (p <? 0) eqn:E1; [apply Z.ltb_lt in E1; lia|].
-    destruct (f <=? 0) eqn:E2; [apply Z.leb_le in E2; lia|]. cbn [orb].
+    destruct (f <=? p) eqn:E2; [apply Z.leb_le in E2; lia|]. cbn [orb].
     eexists. split; [reflexivity|]. split.
     + apply Z.div_pos; nia.
     + apply Z.div_le_upper_bound; nia.
@@ -728,10 +727,10 @@ Qed.
 
 Lemma vs_share_exact_below : vs_share_below_exact vs_share_exact.
 Proof.
-  intros l p f a H. unfold vs_share_exact in H.
-  destruct (p <? 0) eqn:E1; [discriminate|]. destruct (f <=? 0) eqn:E2; [discriminate|].
-  cbn [orb] in H. inversion H; subst. apply Z.leb_gt in E2.
-  rewrite Z.mul_comm. apply Z.mul_div_le. exact E2.
+  intros l p f a H. unfold vs_share_int in H.
+  destruct (p <? 0) eqn:E1; [discriminate|]. destruct (f <=? p) eqn:E2; [discriminate|].
+  cbn [orb] in H. inversion H; subst. apply Z.leb_gt in E2. apply Z.ltb_ge in E1.
+  rewrite Z.mul_comm. apply Z.mul_div_le. lia.
 Qed.
 
 Lemma vs_bound64 : 0 < vs_two64 <= vs_two64.
@@ -770,3 +769,29 @@ Proof.
   - exact (vs_dest_unlock_at_expiry _ _ vs_bound64 vs_share_exact_spec).
   - exact (vs_owner_unlock_spec vs_two64 vs_share_exact).
 Qed.
+
+(* the owner's trigger cannot be refused on a pool that holds tokens and destinations once the
+   clock is not behind the last transfer *)
+Lemma vs_owner_trigger_total : forall bound share, 0 < bound <= vs_two64 -> vs_share_spec bound share ->
+  forall conf p now, vs_inv bound p -> vp_dests p <> [] -> 0 < vp_balance p ->
+  Forall (fun d => vd_move d <= vs_clamp p now) (vp_dests p) ->
+  exists p' tr, vs_step share conf (Some p) (VsTrigger (vp_owner p) now) = (Some p', VsOk tr) /\
+                vp_balance p' = vp_balance p - vs_tr_sum tr.
+Proof.
+  intros bound share Hb Hs conf p now Hinv Hne Hbal Hmv. cbn [vs_step]. rewrite Z.eqb_refl. cbn [negb orb].
+  destruct (Z.of_nat (length (vp_dests p)) =? 0) eqn:E0.
+  { apply Z.eqb_eq in E0. destruct (vp_dests p); [contradiction|cbn in E0; lia]. }
+  pose proof Hinv as (B & Ht & HE & Hds & Hsum).
+  pose proof (vs_clamp_range p now ltac:(lia)) as Hc.
+  unfold vs_pool_trigger. destruct (vp_balance p =? 0) eqn:E1; [apply Z.eqb_eq in E1; lia|].
+  pose proof (vs_trigger_loop_total bound share Hb Hs _ _ _ _ _ Ht HE Hc Hds Hsum Hmv) as Htot.
+  destruct (vs_trigger_loop share (vp_dests p) (vp_balance p) (vs_clamp p now) (vp_expire p)) as [[[b ds] tr0]|] eqn:EL; [|contradiction].
+  destruct (vs_trigger_loop_spec bound share Hb Hs _ _ _ _ _ _ _ _ Ht HE Hc Hds Hsum EL) as (_ & L2 & _).
+  eexists _, tr0. split; [reflexivity|]. cbn [vs_set_dests vs_set_balance vp_balance]. exact L2.
+Qed.
+
+Lemma vs_exact_trigger : forall conf p now, vs_inv vs_two64 p -> vp_dests p <> [] -> 0 < vp_balance p ->
+  Forall (fun d => vd_move d <= vs_clamp p now) (vp_dests p) ->
+  exists p' tr, vs_step vs_share_int conf (Some p) (VsTrigger (vp_owner p) now) = (Some p', VsOk tr) /\
+                vp_balance p' = vp_balance p - vs_tr_sum tr.
+Proof. exact (vs_owner_trigger_total _ _ vs_bound64 vs_share_exact_spec). Qed.
